@@ -36,3 +36,4 @@ def run(ctx):
         "C04_OBS_oneshot_recv_after_taken.case"])
     if not ctx.replay:
         _topic(ctx)
+    chanlib.layer_b(ctx, chanlib.LAYER_B_ALL)
